@@ -20,6 +20,8 @@ def _scenarios(ctx, gens, free_every):
             s["mode"] = "replay"
             s["seed"] = ctx.seed
             s["gen"] = cfg
+            # every third graph has part of its files in a remote repository (//host/org/repo/... import spellings)
+            s["remote"] = len(scn) % 3 == 2
             scn.append(s)
     out = []
     for i, s in enumerate(scn):
@@ -80,7 +82,7 @@ ASSUME = [
     "the gated reader.Reader and the in-memory file layout stand in for golden-retriever and the OS",
     "goroutines of collectSpecs are identified by (canonical file, depth); goroutines with equal keys are interchangeable",
     "free-running (ungated) traces sample, not enumerate, the Go scheduler",
-    "remote (git) imports and version suffixes are not exercised",
+    "remote-style import spellings (//host/org/repo/path) are exercised with the substituted reader for a third of the graphs; real git retrieval and version suffixes (@v) are not",
 ]
 
 
